@@ -60,6 +60,6 @@ func c05Format() c05kit.Format {
 func TestVerifC05(t *testing.T) {
 	rec := ev.New("C05", "legacy-format")
 	defer rec.Flush()
-	cases := c05kit.Cases(ev.Seed(), ev.Thorough(), ev.Pick(40, 400))
+	cases := c05kit.Cases(ev.Seed(), ev.Thorough(), ev.Pick(80, 1500))
 	c05kit.Drive(rec, c05Format(), cases, "", 4)
 }
